@@ -77,6 +77,8 @@ def task(arg):
     habutax = importlib.import_module('habutax')
     spec = [s for s in specs() if s[0] == name][0]
     _, mk, L, kind = spec
+    if tier == 'thorough' and name not in ('RegexRouting', 'SSNInput'):
+        L += 3
     res = {'name': name, 'L': L, 'paths': 0, 'obl': [], 'viol': [], 'kinds': {}, 'samples': [], 'solver_s': 0.0}
     ex = symx.Explorer(timeout_ms=20000, max_paths=50000)
     holder = {}
@@ -241,7 +243,7 @@ def run(tier):
                      ['habutax.inputs.InputStore.__getitem__', 'habutax.inputs.{String,Boolean,Integer,Float,Enum,Regex,SSN}Input.valid/value', 'habutax.prompt_input'])
     instrument.install()
     names = [s[0] for s in specs() if tier == 'thorough' or s[0] != 'FloatInput8']
-    c.bounds = {'alphabet': 'ASCII 0..127', 'string_length': {s[0]: s[2] for s in specs()}, 'prompt_attempts': 2}
+    c.bounds = {'alphabet': 'ASCII 0..127', 'string_length': {s[0]: (s[2] + (3 if tier == 'thorough' and s[0] not in ('RegexRouting', 'SSNInput') else 0)) for s in specs()}, 'prompt_attempts': 2}
     c.outside = ['non-ASCII text (unicode digits / whitespace)', 'strings longer than the per-class bound', 'numeric value of floats with an exponent (kind finite/inf/nan is modelled, value is uninterpreted)']
     c.stubs = ['float(str), int(str): grammar DFAs (validated against CPython on a corpus in the self-test)', 're.compile(p).match for the two shipped patterns', 'configparser behind InputStore: keyed stub', 'input(): returns fresh symbolic strings, then KeyboardInterrupt']
     instrument.install()
